@@ -362,7 +362,7 @@ func (b *builder) onstopCase() {
 	case 1:
 		stopTok = "-"
 	}
-	lines := []string{"mod A ok ok " + stopTok, "mod B - - -", "start", "status"}
+	lines := []string{"mod A ok ok " + stopTok, "mod B - - -", "start", "settle", "status"}
 	n := 1 + rng.Intn(5)
 	kinds := append(append([]string{}, workKinds...), "task-queue")
 	task := false
